@@ -350,3 +350,26 @@ class Connection:
 def open_root(storage, impl, root_oid):
     conn = Connection(storage, impl)
     return conn, conn.get(root_oid)
+
+
+def embedded_but_leaf_has_oid(conn, tree):
+    """Finding F34's condition: the stored record of `tree` is in the
+    embedded single-leaf form while, in the writer's memory, that leaf has
+    meanwhile got an oid of its own (it was reached a second time, e.g.
+    through the `next` pointer of an emptied bucket written in the same
+    commit).  From then on changes of the leaf register only the leaf, whose
+    record the tree record does not reference."""
+    try:
+        oid = tree._p_oid
+        if oid is None or oid not in conn.storage.data:
+            return False
+        data = conn.storage.current(oid)[2]
+        up = pickle.Unpickler(io.BytesIO(data))
+        up.persistent_load = lambda ref: ('REF', ref[0])
+        st = up.load()
+        if st is None or len(st) != 1:
+            return False
+        live = tree.__getstate__()
+        return live is not None and len(live) == 2
+    except Exception:
+        return False
